@@ -164,6 +164,9 @@ static std::string roundTrip(const Manifold& m, const MeshGL64& g, Stat& st) {
     MeshGL64 gs = g; gs.mergeFromVert.clear(); gs.mergeToVert.clear(); gs.Merge();
     Manifold ms(gs);
     if (ms.Status() != Manifold::Error::NoError) return "Merge() after stripping the merge vectors: import status " + std::to_string((int)ms.Status());
+    // ... and it restores THE manifold, not some other one: same vertex and triangle counts, same volume
+    if (ms.NumVert() != m.NumVert() || ms.NumTri() != m.NumTri()) { char b[240]; snprintf(b, sizeof b, "Merge() after stripping the merge vectors re-imports as %zu verts / %zu tris, the manifold has %zu / %zu (tolerance %.3g)", (size_t)ms.NumVert(), (size_t)ms.NumTri(), (size_t)m.NumVert(), (size_t)m.NumTri(), g.tolerance); return b; }
+    if (std::fabs(ms.Volume() - m.Volume()) > 1e-9 * (1 + std::fabs(m.Volume()))) return "Merge() after stripping the merge vectors changes the volume";
     st.merge++;
   }
   // ---- Refine(2) before / after
@@ -223,6 +226,18 @@ int main(int argc, char** argv) {
       std::string e = inputKept(um); st.inputs++;
       hz::emit(std::to_string(t) + " input" + std::to_string(k++) + " numProp=" + std::to_string((uint64_t)um.g.numProp) + " faceIDs=" + (um.g.faceID.empty() ? "0" : "1") + " runs=" + std::to_string(um.g.runOriginalID.size()) + " merges=" + std::to_string(um.g.mergeFromVert.size()), "", "", e.empty(), e);
     }
+  }
+  // thin features: solids with property seams (faceted normals) whose smallest feature lies between 1x and 2x the tolerance, and
+  // controls at 4x: the merge vectors must be re-derivable by Merge() without welding distinct manifold vertices
+  for (int k = 0; k < 8; k++) {
+    const double tol = 0.01 * (1 + (int)r.below(3)), ratio = (k % 4 == 3) ? 4.0 : 1.15 + 0.25 * (k % 4) + 0.05 * unit(r), h = ratio * tol;
+    Manifold base = k < 4 ? Manifold::Cube(vec3(1.0 + unit(r), 0.8 + unit(r), h)) : (Manifold::Cube(vec3(2.0, 2.0, h), true) - Manifold::Cylinder(1.0, 0.3 + 0.2 * unit(r), -1.0, 8 + (int)r.below(8), true));
+    Manifold m = base.SetTolerance(tol).CalculateNormals(0, 30);
+    MeshGL64 g = m.GetMeshGL64(); auto impl = implOf(m);
+    const bool ok = m.Status() == Manifold::Error::NoError && g.NumTri() > 0;
+    char d[200]; snprintf(d, sizeof d, "thin-feature k=%d h=%.4g tol=%.3g ratio=%.3g merges=%zu", k, h, tol, ratio, g.mergeFromVert.size());
+    std::string msg = ok ? roundTrip(m, g, st) : "";
+    hz::emit(std::to_string(T + k) + " thinfeature tris=" + std::to_string((uint64_t)g.NumTri()) + " :: " + d, exportRequest(*impl), exportAnswer(g, normalsRewritten(*impl)), msg.empty(), msg);
   }
   printf("STATS programs=%d roundTrips=%ld multiRun=%ld withTangents=%ld withNormalsRuns=%ld withBackSideRuns=%ld float32=%ld obj=%ld mergeStripped=%ld refineCompared=%ld userInputs=%ld\n",
          T, st.rt, st.multiRun, st.rtTang, st.rtNormals, st.rtBack, st.f32, st.obj, st.merge, st.refine, st.inputs);
